@@ -46,6 +46,9 @@ META = {
 KEYKINDS = ("int", "str", "float_nan", "cat")
 
 
+GC_EACH_RUN = True  # see sim/worker.run_tape
+
+
 def tier_cfg(tier):
     return {"maxrows": 24 if tier == "quick" else 60}
 
@@ -78,6 +81,10 @@ def make_frame(tape, cfg):
     else:
         k = pd.Series(pd.Categorical([f"c{v}" for v in raw], categories=[f"c{i}" for i in range(card)]))
     df = pd.DataFrame({"k": k, "w": [tape.draw(3, "w") for _ in range(n)], "v": np.arange(n)})
+    if tape.chance(1, 3, "presorted") and kind != "cat":
+        # input already ordered on the key (duplicates then tend to sit on partition boundaries)
+        df = df.sort_values("k", kind="stable", na_position="last").reset_index(drop=True)
+        df["v"] = np.arange(n)
     return df, kind
 
 
@@ -155,14 +162,21 @@ def run_one(tape, cfg):
                                            f"rows with key {key} are in output partitions {seen[key]} and {i}")
                             seen[key] = i
             elif op == "sort_values":
-                r = d.sort_values("k", npartitions=nout, ascending=ascending, na_position=na_position,
+                by = ["k", "w"] if on_two else "k"
+                r = d.sort_values(by, npartitions=nout, ascending=ascending, na_position=na_position,
                                   shuffle_method=method)
-                got = r.compute()
-                want = df.sort_values("k", ascending=ascending, na_position=na_position, kind="stable")
+                # partition by partition: .compute() of the whole frame may be optimised into a
+                # single-partition sort, which would hide the partitioned sort
+                parts = dask.compute(*r.to_delayed())
+                got = pd.concat(parts) if parts else df.iloc[:0]
+                want = df.sort_values(by, ascending=ascending, na_position=na_position, kind="stable")
                 gk = got["k"].astype(object).where(got["k"].notna(), "<NA>").tolist()
                 wk = want["k"].astype(object).where(want["k"].notna(), "<NA>").tolist()
                 if gk != wk:
-                    problem = ("sort_order", f"sorted keys {gk} != pandas {wk}")
+                    problem = ("sort_order", f"sorted keys (partitions concatenated) {gk} != pandas {wk}")
+                elif on_two and got["w"].tolist() != want["w"].tolist():
+                    problem = ("sort_order", f"second sort column {got['w'].tolist()} != pandas "
+                                             f"{want['w'].tolist()} (keys {gk})")
                 elif sorted(got["v"].tolist()) != list(range(n)):
                     problem = ("sort_rows_changed", f"rows changed: v={sorted(got['v'].tolist())}")
                 else:
@@ -191,8 +205,11 @@ def run_one(tape, cfg):
                         problem = ("set_index_rows_changed", "rows moved between index values")
                     if r.known_divisions and problem is None:
                         divs = r.divisions
+                        last = len(parts) - 1
                         for i, p in enumerate(parts):
-                            if len(p) and (p.index.min() < divs[i] or p.index.max() > divs[i + 1]):
+                            # [d_i, d_i+1) for inner partitions, closed for the last one
+                            if len(p) and (p.index.min() < divs[i] or p.index.max() > divs[i + 1]
+                                           or (i < last and p.index.max() == divs[i + 1])):
                                 problem = ("divisions_untruthful", f"partition {i} index range "
                                                                    f"[{p.index.min()}, {p.index.max()}] outside "
                                                                    f"divisions {divs[i]}..{divs[i + 1]}")
